@@ -259,11 +259,17 @@ func (f *fixture) judgeStatement(q string, nargs int) *stmtVerdict {
 
 // addressed resolves the table name of a request to a table of the fixture.
 // Generously: white space and quotes at either end (the server strips a
-// quote at either end of a name), a "main." qualifier and letter case do not
-// change which table a name is taken to mean. "" when the name is no table's.
+// quote at either end of a name), a qualifier in front of a dot and letter
+// case do not change which table a name is taken to mean. "" when the name is no table's.
 func (f *fixture) addressed(name string) string {
-	n := strings.Trim(name, "\"' \t")
-	n = strings.TrimPrefix(strings.ToLower(n), "main.")
+	n := strings.ToLower(strings.Trim(name, "\"' \t"))
+
+	// A dotted name is qualifier.table ("main.t1", `"x"."t1"`): the table part
+	// is what the request addresses, whatever the qualifier is worth.
+	if i := strings.LastIndex(n, "."); i >= 0 {
+		n = n[i+1:]
+	}
+
 	n = strings.Trim(n, "\"' \t")
 
 	return f.tables[n]
